@@ -141,11 +141,20 @@ SITES.update({
     # negative radius makes the scatterer invalid)
     "lr1": _site(0.3, 0.1, 0.45, 0.05, -0.1, blo=-0.25),
     "lr2": _site(0.5, 0.46, 0.8, 0.05, -0.1, blo=-0.25),
+    # non-spherical particles and a sphere given by layer thicknesses: any
+    # negative dimension makes the scatterer invalid
+    "sa": _site(0.4, 0.3, 0.6, 0.05, -0.1, blo=-0.25),
+    "sc": _site(0.6, 0.45, 0.8, 0.05, -0.1, blo=-0.25),
+    "cd": _site(0.6, 0.4, 0.8, 0.05, -0.1, blo=-0.25),
+    "ch": _site(0.8, 0.6, 1.0, 0.05, -0.1, blo=-0.25),
+    "lt1": _site(0.3, 0.1, 0.45, 0.05, -0.1, blo=-0.25),
+    "lt2": _site(0.2, 0.05, 0.4, 0.05, -0.1, blo=-0.25),
     # "expr": the height is written as 10 - h, the radius as 1 - gap
     "h": _site(5.0, 4.0, 6.0, 0.5, 9.0),
     "gap": _site(0.5, 0.2, 0.7, 0.1, 2.0),
 })
-RADIUS_SITES = ("r", "r1", "wr1", "wr2", "tr1", "tr2", "tr3", "lr1", "lr2")
+RADIUS_SITES = ("r", "r1", "wr1", "wr2", "tr1", "tr2", "tr3", "lr1", "lr2",
+                "sa", "sc", "cd", "ch", "lt1", "lt2")
 VAL_NAMES_UB = ["guess", "lower", "upper", "lower-1ulp", "upper+1ulp",
                 "interior", "far"]
 VAL_NAMES_G = ["guess", "mu-2sd", "mu+2sd", "interior", "far"]
@@ -191,12 +200,16 @@ KIND_SITES = {
     "tie2of3": ["tn", "tr1", "tr2", "tr3", "alpha"],
     "layered": ["n", "lr1", "lr2", "alpha"],
     "expr": ["n", "gap", "h", "alpha"],
+    "spheroid": ["n", "sa", "sc", "alpha"],
+    "cylinder": ["n", "cd", "ch", "alpha"],
+    "layered-t": ["n", "lt1", "lt2", "alpha"],
     # three spheres under LimitOverlaps: the pair that can overlap does not
     # include the sphere listed last
     "three-0.1": ["r1", "x2", "alpha"],
 }
 EXTRA_KINDS = ["norad", "exact-norad", "wide", "tie3", "tie3-rev", "tie2of3",
-               "layered", "three-0.1", "expr"]
+               "layered", "three-0.1", "expr", "spheroid", "cylinder",
+               "layered-t"]
 TIE3_CENTERS = [(0.0, 0.1, 5.0), (1.5, 0.1, 5.0), (0.25, 1.625, 5.5)]
 FRACTION = {"two-0.1": 0.1, "two-0": 0, "two-1": 1, "two-0.125": 0.125,
             "two-tied": 0.1, "three-0.1": 0.1}
@@ -399,6 +412,19 @@ def _mk_scat(kind, g):
         # reflected arithmetic: a number minus / over a parameter
         return Sphere(n=g("n", 1.59), r=1.0 - g("gap", 0.5),
                       center=(0.17, 0.11, 10.0 - g("h", 5.0)))
+    if kind == "spheroid":
+        from holopy.scattering import Spheroid
+        return Spheroid(n=g("n", 1.59), r=(g("sa", 0.4), g("sc", 0.6)),
+                        rotation=(0, 0.4, 0), center=(0.17, 0.11, 5.0))
+    if kind == "cylinder":
+        from holopy.scattering import Cylinder
+        return Cylinder(n=g("n", 1.59), d=g("cd", 0.6), h=g("ch", 0.8),
+                        rotation=(0, 0.4, 0), center=(0.17, 0.11, 5.0))
+    if kind == "layered-t":
+        from holopy.scattering.scatterer import LayeredSphere
+        return LayeredSphere(n=[g("n", 1.59), 1.45],
+                             t=[g("lt1", 0.3), g("lt2", 0.2)],
+                             center=(0.17, 0.11, 5.0))
     if kind == "layered":
         return Sphere(n=[g("n", 1.59), 1.45],
                       r=[g("lr1", 0.3), g("lr2", 0.5)],
@@ -425,6 +451,9 @@ def _mk_theory(kind, lens_angle=None):
         return MieLens(lens_angle=lens_angle)
     if kind in ("norad", "exact-norad"):
         return Mie(compute_escat_radial=False, full_radial_dependence=False)
+    if kind in ("spheroid", "cylinder"):
+        from holopy.scattering import Tmatrix
+        return Tmatrix()
     return Mie()
 
 
